@@ -333,7 +333,7 @@ func (in *c05wInst) Step(ev int) *vh.HViol {
 }
 
 func (in *c05wInst) Fingerprint() string {
-	return strategyState(in.k.lb.strategy) + fmt.Sprint(in.ej, in.listed, in.added) + func() string {
+	return in.k.novel() + strategyState(in.k.lb.strategy) + fmt.Sprint(in.ej, in.listed, in.added) + func() string {
 		o := ""
 		for _, b := range in.k.lb.strategy.GetBackends() {
 			o += fmt.Sprint(b.IsHealthy, b.UnhealthyUntil.After(vrt.Now()))
